@@ -324,5 +324,68 @@ for adj in row_it: graph.get_successor_nodes_by_index(&v)
                 }
 //@ end
 
+
+//@ extract static src/algorithms/shortest_path/dijkstra.rs CONTRADICTORY_PATHS_ERROR_MESSAGE
+//@ head
+#[verifier::external]
+//@ end
+//@ extract fn src/algorithms/shortest_path/dijkstra.rs get_contractory_paths_error
+//@ head
+#[verifier::external_body]
+//@ end
+//@ extract fn src/algorithms/shortest_path/dijkstra.rs add_u_to_v_paths_and_append_v_paths_to_u_paths
+//@ head
+#[verifier::external_body]
+//@ end
+//@ extract fn src/algorithms/shortest_path/dijkstra.rs convert_shortest_path_info_index_to_t
+//@ head
+#[verifier::external_body]
+//@ end
+
+// A5: the full Dijkstra (path bookkeeping uses closures over &mut) and the index->name translation are left unverified
+//@ extract fn src/algorithms/shortest_path/dijkstra.rs dijkstra
+//@ head
+#[verifier::external_body]
+//@ rewrite
+) -> Result<Vec<(usize, ShortestPathInfo<usize>)>, Error>
+//@ with
+) -> (r: Result<Vec<(usize, ShortestPathInfo<usize>)>, Error>)
+//@ spec
+    requires
+        graph.wf_nodes(),
+        graph.wf_rows(),
+        source < graph.n(),
+        target.is_some() ==> target.unwrap() < graph.n(),
+//@ end
+
+//@ extract fn src/algorithms/shortest_path/dijkstra.rs convert_shortest_path_info_vec_to_t_map
+//@ head
+#[verifier::external_body]
+//@ rewrite
+) -> HashMap<T, ShortestPathInfo<T>>
+//@ with
+) -> (r: HashMap<T, ShortestPathInfo<T>>)
+//@ spec
+    requires
+        graph.wf_nodes(),
+//@ end
+
+//@ extract fn src/algorithms/shortest_path/dijkstra.rs single_source props=C08,C20
+//@ rewrite
+) -> Result<HashMap<T, ShortestPathInfo<T>>, Error>
+//@ with
+) -> (r: Result<HashMap<T, ShortestPathInfo<T>>, Error>)
+//@ spec
+    requires
+        graph.wf_nodes(),
+        graph.wf_rows(),
+    ensures
+        // [C08.single_source.error_channel]
+        !graph.knows(source) ==> is_err_kind(r, ErrorKind::NodeNotFound),
+        graph.knows(source) && target.is_some() && !graph.knows(target.unwrap()) ==> is_err_kind(r, ErrorKind::NodeNotFound),
+        // [C08.single_source.fast_path_never_errs]
+        graph.knows(source) && target.is_none() && cutoff.is_none() && !first_only && !with_paths ==> r.is_ok(),
+//@ end
+
 } // verus!
 fn main() {}
